@@ -285,7 +285,7 @@ pub fn monitor(tier: Tier) -> Monitor {
             "on Err, consumed counts / partial output / error text may differ for reasons internal to std's read_exact; error-text differences are recorded as warnings only".into(),
             "readers never return an empty buffer before EOF (that would break the BufRead contract)".into(),
         ],
-        families: vec![Family { name: "inputs", count: tier.pick(6_000, 300_000), priority: false, enumerated: false, run: fam_inputs }],
+        families: vec![Family { name: "inputs", count: tier.pick(15_000, 400_000), priority: false, enumerated: false, run: fam_inputs }],
         label,
         floors,
         summarize: no_summary,
